@@ -403,6 +403,11 @@ class Unit:
                 text = it.text
             text = rw.r10_decoration(text, log)
             text = rw.r1_async(text, log)
+            _rules = all_rules(self.name, self.rules_from)
+            for r in spec.rules:                       # rules marked `vx_pre` run before the always-on log erasure
+                fn = _rules.get(r)
+                if fn is not None and getattr(fn, "vx_pre", False):
+                    text = fn(text, log)
             text = rw.r3_logs(text, log)
             text = rw.r2_asserts(text, log)
             text = rw.r6_config(text, set(self.config), log)
@@ -410,6 +415,8 @@ class Unit:
                 fn = all_rules(self.name, self.rules_from).get(r)
                 if fn is None:
                     raise UnitError("unknown rule %s" % r)
+                if getattr(fn, "vx_pre", False):
+                    continue
                 text = fn(text, log)
             for a, b, why in self.gsubsts:
                 text = rw.subst(text, a, b, log, must=False)
@@ -430,6 +437,10 @@ class Unit:
                 sid_base = "%s/%s" % (self.name, (spec.container + "::" if spec.container else "") + spec.name + "#" + spec.region.get("name", "region"))
             if spec.kind in ("fn", "region"):
                 text, n_probe = self._splice_fn(text, spec, sid_base, info, probe and not spec.noprobe)
+            if spec.kind in ("fn", "region") and os.environ.get("VX_LOOP_ISO", "1") == "0" and re.search(r"\b(while|for|loop)\b", text) and "{" in text:
+                # loops see the facts established before them (unmodified variables keep what is known about them): an edit
+                # that introduces a local before a loop then does not need a new invariant clause
+                text = "#[verifier::loop_isolation(false)]\n" + text
             a, b = it.line_span()
             sha = hashlib.sha256(it.text.encode()).hexdigest()[:16]
             header = "// vx-item %s @ %s:%d-%d sha256=%s rules=[%s]\n" % (sid_base, spec.path, a, b, sha, "; ".join("%s x%d" % kv for kv in sorted(log.items())))
